@@ -108,6 +108,12 @@ type (
 	}
 )
 
+// OmitPtrs: omitempty on a POINTER field. The key is left out for a nil pointer only - a pointer to a zero value is a value.
+type OmitPtrs struct {
+	P *Inner `serix:",optional,omitempty"`
+	Z uint8  `serix:""`
+}
+
 type Deep struct {
 	Sh Shape2 `serix:""`
 }
@@ -118,7 +124,7 @@ var catTypes = map[string]reflect.Type{
 	"Rect": reflect.TypeOf(Rect{}), "Tag": reflect.TypeOf(Tag{}), "Ifaces": reflect.TypeOf(Ifaces{}),
 	"TArr": reflect.TypeOf(TArr{}), "ByteArrs": reflect.TypeOf(ByteArrs{}), "Big": reflect.TypeOf(Big{}),
 	"Embed": reflect.TypeOf(Embed{}), "Inl": reflect.TypeOf(Inl{}), "Arr16": reflect.TypeOf(Arr16{}),
-	"Group": reflect.TypeOf(Group{}), "Deep": reflect.TypeOf(Deep{}),
+	"Group": reflect.TypeOf(Group{}), "Deep": reflect.TypeOf(Deep{}), "OmitPtrs": reflect.TypeOf(OmitPtrs{}),
 }
 
 func mustReg(err error) {
@@ -141,6 +147,7 @@ func newCatAPI() *serix.API {
 	mustReg(api.RegisterTypeSettings(Inl{}, ot(9)))
 	mustReg(api.RegisterTypeSettings(Arr16{}, ot(10)))
 	mustReg(api.RegisterTypeSettings(Deep{}, ot(11)))
+	mustReg(api.RegisterTypeSettings(OmitPtrs{}, ot(12)))
 	mustReg(api.RegisterTypeSettings(Circle{}, ot(0)))
 	mustReg(api.RegisterTypeSettings(Rect{}, ot(1)))
 	mustReg(api.RegisterTypeSettings(Tag{}, ot(2)))
